@@ -5,6 +5,7 @@ package main
 import (
 	"fmt"
 	"math/rand"
+	"net"
 	"strconv"
 	"strings"
 
@@ -152,6 +153,46 @@ func runC19(o *Out, r *rand.Rand, thorough bool, _ []string) {
 				o.Case(fmt.Sprintf("frame v=%d len=%d", v, ln), fmt.Sprintf("rt=%s prefixed=%d", rt, b2i(len(enc) != len(data))))
 			}
 		}
+	}
+
+	// a peer the node already knows by an OLDER record (it sits in the routing table) comes back with a newer record that
+	// advertises another version list: the version is computed from the record at hand, not from the table's copy
+	{
+		mn := newMemNet()
+		nd := startNode(mn, r, nodeOpts{ip: net.IP{34, 90, 1, 1}, port: 9700, versions: []uint8{0, 1}, utpLimit: 4, noWorkers: true})
+		lists := [][]uint8{{0}, {1}, {0, 1}, {1, 0}, nil}
+		k := 0
+		for _, older := range lists {
+			for _, newer := range lists {
+				if csv(older) == csv(newer) && (older == nil) == (newer == nil) {
+					continue
+				}
+				k++
+				key := keyFromSeed(r)
+				ip := net.IP{34, 91, byte(k), 7}
+				nd.p.AddEnr(signRecPv(key, ip, 7400, 1, older))
+				now := signRecPv(key, ip, 7400, 2, newer)
+				var res []string
+				for c := 0; c < 2; c++ {
+					v, err := nd.p.VerifGetOrStoreHighestVersion(now)
+					if err != nil {
+						res = append(res, "err")
+					} else {
+						res = append(res, "ok:"+strconv.Itoa(int(v)))
+					}
+				}
+				peerDesc := "none"
+				if newer != nil {
+					peerDesc = csv(newer)
+				}
+				olderDesc := "none"
+				if older != nil {
+					olderDesc = csv(older)
+				}
+				o.Case(fmt.Sprintf("gos own=0,1 peer=%s calls=2 known_by_older=%s", peerDesc, olderDesc), strings.Join(res, ","))
+			}
+		}
+		nd.stop()
 	}
 
 }
